@@ -267,6 +267,15 @@ def clone_index(ix):
     return sr.BlockIndex(dict(ix.chargemap), dual=ix.dual, subinfo=sub)
 
 
+def _copy_block(b):
+    """Memory-disjoint copy that keeps the representation: a numpy *scalar*
+    (what ufuncs return for 0-d input) stays a scalar, because numpy's scalar
+    arithmetic and its 0-d array loops may round differently by one ulp."""
+    if isinstance(b, np.generic):
+        return b
+    return np.array(b, copy=True)
+
+
 def clone(v):
     """Memory-disjoint deep copy built through public constructors."""
     k = kind_of(v)
@@ -282,7 +291,7 @@ def clone(v):
         new = type(v)(
             indices=tuple(clone_index(ix) for ix in v.indices),
             charge=v.charge,
-            blocks={s: np.array(b, copy=True) for s, b in v.blocks.items()},
+            blocks={s: _copy_block(b) for s, b in v.blocks.items()},
             **kw,
         )
         if snap(new) != snap(v):
@@ -290,9 +299,7 @@ def clone(v):
                                + str(describe_diff(snap(new), snap(v))))
         return new
     if k == "V":
-        return BC.BlockVector(
-            {s: np.array(b, copy=True) for s, b in v.blocks.items()}
-        )
+        return BC.BlockVector({s: _copy_block(b) for s, b in v.blocks.items()})
     if k == "T":
         return tuple(clone(x) for x in v)
     if k == "S":
